@@ -893,6 +893,7 @@ def load_pinned():
 
 
 CURRENT_FACTS = None
+_INT_FROM_RE = re.compile(r'From<(u8|u16|u32|u64|usize|i8|i16|i32|i64|isize|bool)>(>| for (u8|u16|u32|u64|u128|usize|i16|i32|i64|i128|isize))')
 
 
 class Facts:
@@ -1192,12 +1193,18 @@ class AbsInt:
             elif isinstance(e, dict) and 'index' in e:
                 iv = env.get('_%d' % e['index'], ('local', e['index']))
                 key = key + idx_token(iv)
-                val = env.get(key, ('index', val, iv))
+                if key not in env and val[0] == 'agg' and str(val[1]).startswith('Array') and iv[0] == 'int' and 0 <= iv[1] < len(val[3]):
+                    val = val[3][iv[1]]             # element k of an array literal built on this path
+                else:
+                    val = env.get(key, ('index', val, iv))
             elif isinstance(e, dict) and 'const_index' in e and not e.get('from_end'):
                 # a[k] with a constant k (slice / array patterns): same place as indexing with the constant
                 iv = ('int', e['const_index'], 'usize')
                 key = key + idx_token(iv)
-                val = env.get(key, ('index', val, iv))
+                if key not in env and val[0] == 'agg' and str(val[1]).startswith('Array') and 0 <= iv[1] < len(val[3]):
+                    val = val[3][iv[1]]
+                else:
+                    val = env.get(key, ('index', val, iv))
             else:
                 key = key + '.?'
                 val = ('proj', val, repr(e))
@@ -1502,6 +1509,17 @@ class AbsInt:
                     if a0[0] == 'agg' and a0[1] in ('core::result::Result', 'core::option::Option') and a0[2] in ('Ok', 'Err', 'Some', 'None'):
                         want = {'is_none': 'None', 'is_some': 'Some', 'is_ok': 'Ok', 'is_err': 'Err'}[name.split('::')[-1]]
                         res = ('int', int(a0[2] == want), 'bool')
+                if res is None and len(argvals) == 1 and argvals[0][0] == 'int' and name.endswith('::from') and _INT_FROM_RE.search(name):
+                    res = ('int', argvals[0][1], 'usize')          # usize::from(true) is 1: a lossless integer conversion of a constant
+                if res is None and name.endswith(('Option::<T>::unwrap_or', 'Option::<T>::unwrap_or_default', 'Option::<T>::unwrap', 'Option::<T>::expect')) and argvals:
+                    a0 = argvals[0]
+                    for _ in range(3):
+                        if a0[0] == 'ref' and a0[1] in env:
+                            a0 = env[a0[1]]
+                    if a0[0] == 'agg' and a0[1] == 'core::option::Option' and a0[2] == 'Some' and a0[3]:
+                        res = a0[3][0]          # Some(x).unwrap_or(d) is x
+                    elif a0[0] == 'agg' and a0[1] == 'core::option::Option' and a0[2] == 'None' and name.endswith('::unwrap_or') and len(argvals) > 1:
+                        res = argvals[1]        # None.unwrap_or(d) is d
                 if res is None and name.endswith('Try>::branch') and argvals and argvals[0][0] == 'agg' and \
                         argvals[0][1] in ('core::result::Result', 'core::option::Option') and argvals[0][2] in ('Ok', 'Err', 'Some', 'None'):
                     a0 = argvals[0]
